@@ -22,7 +22,7 @@ IsCV(x, v) == x[1] = "c" /\ x[2] = v
 MultiOutCls(c) == c \in ({"DC", "Pan2", "In"} \cup ControlClasses)
 \* classes whose _optimize_graph performs dead code elimination
 PureCls(c) == c \in {"SinOsc", "LFSaw", "Impulse", "DC", "K2A", "A2K", "LinExp", "LPF", "UnaryOpUGen", "BinaryOpUGen"}
-Modelled(p) == /\ \A i \in 1..Len(p.ctl) : CtlW(p.ctl[i]) = 1
+Modelled(p) == /\ \A i \in 1..Len(p.ctl) : CtlW(p.ctl[i]) = 1 /\ CtlLag(p.ctl[i]) = 0
                /\ \A n \in 1..Len(p.ins) :
                   /\ p.ins[n].op \in ({"gen", "un", "bin", "madd", "sum"} \cup ListOps)
                   /\ p.ins[n].op = "gen" => ~ClassTab[p.ins[n].cls].wf
